@@ -35,7 +35,19 @@ Accepted (safe) idioms, in all their spellings - locals, helpers (private predic
   * `x[:len(p) + 1] == p + "."`, `x[:len(q)] == q` with q ending in '.', suffixes starting with '.';
   * cuts at an index that is the position of a separator: find / rfind('.') guarded by `!= -1` / `>= 0` / `"." in x` (if, while,
     conditional expression, walrus), `+ 1` past it, index / rindex, enumerate / range(len) positions tested to hold '.',
-    positions collected by such a test, regex matches of r"\.";
+    positions collected by such a test, regex matches of r"\.", an index variable whose not-found value is replaced or excluded
+    on every path to the cut (`if i < 0: i = len(x)`, also inside loops left by break - `_index_values_at` interprets the
+    function over the value kinds {-1, 0, separator position, len(x)}; a `for .. in range(n)` counts as run at least once only
+    where the path condition shows n > 0);
+  * `x.replace(p, y, 1)` where `x == p or x.startswith(p + ".")` is established at the call (as for `x[len(p):]`): the first
+    occurrence is then the leading run of whole components; without a count, with another count, or after a raw test: unsafe;
+  * components folded pairwise with the separator: `accumulate(parts, "{}.{}".format)`, `reduce(lambda a, b: a + "." + b, parts)`
+    (f-string / join / format / small named function alike); any other constant between the two: unsafe;
+  * a head slice or a next-character slice kept in a local (also by pairwise tuple assignment) is judged at the comparisons of
+    that local; a length kept in a field (`self._end = len(self._root)`, both assigned once, in this order, in one method) is
+    that length; class-level tuples of accepted next characters are read as constants;
+  * names handed to callable objects (`matcher(name)`, `filter(matcher, names)`, the static type of `matcher` being a repo class
+    with `__call__`) reach the parameters of `__call__`;
   * split / rsplit / partition / rpartition / count / find at '.', join of components with '.' (or of '.'-decorated components
     with ''), characters compared with '.' only, '.' replaced (name -> path), components joined with '/';
   * regexes built from an escaped name that continue with a boundary (`(\.|$)`, `\.`, `\b`) or are matched with fullmatch;
@@ -2160,44 +2172,40 @@ def _range_nonempty(f: FuncInfo, loop: ast.AST) -> bool:
 
 def _index_values_at(f: FuncInfo, var: str, hay: str, at: ast.AST) -> frozenset | None:
     """Which kinds of values the index variable `var` can hold when the statement that contains `at` is reached - a small
-    path-sensitive interpretation of the function body over the domain {neg (-1: separator not found / sentinel), zero (constant 0),
-    sep (position of a '.' of `hay`: find / rfind result that is not -1, index / rindex), len (len(hay))}. Tests of the variable
-    against integer constants (`i < 0`, `i == -1`, `i != -1`, `i >= 0`, either side, `not`, `and` / `or`) refine the set on the
-    two branches of if / while / conditional exits; loops are iterated to a fixpoint, break / continue / return / raise end a path.
-    None: the function does something with the variable that is not modelled (no statement about the index is made then)."""
+    path-sensitive interpretation of the function body. Every local is mapped to a set of kinds: neg (-1: separator not found /
+    sentinel), zero (constant 0), sep (position of a '.' of `hay`: find / rfind result that is not -1, index / rindex),
+    len (len(hay)), other (anything else). Values: `hay.find(".", ..)`, `hay.index(".")`, `len(hay)`, -1, 0, another local,
+    conditional expressions, `max(i, 0)`. Tests of a local against integer constants (`i < 0`, `i == -1`, `i != -1`, `i >= 0`,
+    either side, truthiness, `not`, `and` / `or`, walrus) refine the sets on the two branches of if / while / conditional
+    expressions; loops are iterated to a fixpoint, break / continue / return / raise end a path; an exception handler may be
+    entered after any assignment of the try body. None: the variable may hold something else there (no statement is made then)."""
     fn = f.node
-    if not isinstance(fn, (ast.FunctionDef, ast.AsyncFunctionDef)):
+    if not isinstance(fn, (ast.FunctionDef, ast.AsyncFunctionDef)) or var in f.param_names:
         return None
-    target = stmt_of(at) if not isinstance(at, ast.stmt) else at
+    target = at if isinstance(at, ast.stmt) else stmt_of(at)
     if target is None:
         return None
-    ALL_NONNEG = ("zero", "sep", "len")
+    OTHER = frozenset({"other"})
     seen_at: list = [None]
+    poisoned = {n_ for x in ast.walk(fn) if isinstance(x, (ast.Nonlocal, ast.Global)) for n_ in x.names}  # (changed behind our back)
+    if var in poisoned:
+        return None
 
-    def stores(node: ast.AST) -> bool:
-        return any(isinstance(x, ast.Name) and x.id == var and isinstance(x.ctx, (ast.Store, ast.Del)) for x in ast.walk(node))
+    def get(env: dict, v: str) -> frozenset:
+        return OTHER if v in poisoned else env.get(v, OTHER)
 
-    def absval(v: ast.expr) -> frozenset:
-        if isinstance(v, ast.Call) and isinstance(v.func, ast.Attribute) and norm(v.func.value) == hay and v.args and _const_str(v.args[0]) == ".":
-            if v.func.attr in ("find", "rfind"):
-                return frozenset({"neg", "sep"})
-            if v.func.attr in ("index", "rindex"):
-                return frozenset({"sep"})
-        if isinstance(v, ast.Call) and _call_name(v) == "len" and len(v.args) == 1 and norm(v.args[0]) == hay:
-            return frozenset({"len"})
-        try:
-            k = ast.literal_eval(v)
-        except Exception:  # noqa: BLE001
-            raise _GiveUp from None
-        if isinstance(k, bool) or not isinstance(k, int) or k not in (-1, 0):
-            raise _GiveUp
-        return frozenset({"neg" if k == -1 else "zero"})
+    def join_env(a, b):
+        if a is None:
+            return b
+        if b is None:
+            return a
+        return {k: a.get(k, OTHER) | b.get(k, OTHER) for k in set(a) | set(b)}
 
     def can(kind: str, op: type, k: int, want: bool) -> bool:
         """Some value of this kind makes `value <op> k` evaluate to `want`."""
         table = {ast.Lt: lambda x: x < k, ast.LtE: lambda x: x <= k, ast.Gt: lambda x: x > k, ast.GtE: lambda x: x >= k, ast.Eq: lambda x: x == k, ast.NotEq: lambda x: x != k}
         fn_ = table.get(op)
-        if fn_ is None:
+        if fn_ is None or kind == "other":
             return True
         if kind == "neg":
             return fn_(-1) is want
@@ -2206,171 +2214,231 @@ def _index_values_at(f: FuncInfo, var: str, hay: str, at: ast.AST) -> frozenset 
         # any non-negative integer: the truth value changes at most once around k
         return any(fn_(x) is want for x in (0, max(k - 1, 0), max(k, 0), max(k, 0) + 1))
 
-    def join(a, b):
-        if a is None:
-            return b
-        if b is None:
-            return a
-        return a | b
+    def bind_walrus(e: ast.AST, env: dict) -> dict:
+        """Assignment expressions somewhere inside `e` (weak update: they may or may not have been evaluated)."""
+        for x in ast.walk(e):
+            if isinstance(x, ast.NamedExpr) and isinstance(x.target, ast.Name):
+                env = {**env, x.target.id: get(env, x.target.id) | value(x.value, env)[0]}
+            elif isinstance(x, (ast.ListComp, ast.SetComp, ast.DictComp, ast.GeneratorExp)):
+                for g in x.generators:  # (a comprehension variable of the same name is another variable: nothing is known about loads of it)
+                    for t in ast.walk(g.target):
+                        if isinstance(t, ast.Name) and t.id in env:
+                            env = {**env, t.id: OTHER}
+        return env
 
-    def refine(test: ast.expr, st, want: bool):
-        """State on the branch where `test` evaluates to `want` (None = unreachable); assignments by walrus in the test are applied."""
-        if st is None:
+    def value(v: ast.expr, env: dict) -> tuple[frozenset, dict]:
+        """(kinds of the value of `v`, environment after evaluating it)."""
+        if isinstance(v, ast.NamedExpr) and isinstance(v.target, ast.Name):
+            k, env = value(v.value, env)
+            return k, {**env, v.target.id: k}
+        if isinstance(v, ast.Name):
+            return get(env, v.id), env
+        if isinstance(v, ast.IfExp):
+            a = refine(v.test, env, True)
+            b = refine(v.test, env, False)
+            ka, ea = value(v.body, a) if a is not None else (frozenset(), None)
+            kb, eb = value(v.orelse, b) if b is not None else (frozenset(), None)
+            out = join_env(ea, eb)
+            return ka | kb, out if out is not None else env
+        if isinstance(v, ast.Call) and isinstance(v.func, ast.Attribute) and norm(v.func.value) == hay and v.args and _const_str(v.args[0]) == "." and v.func.attr in SEARCH_METHODS:
+            return frozenset({"neg", "sep"} if v.func.attr in ("find", "rfind") else {"sep"}), bind_walrus(v, env)
+        if isinstance(v, ast.Call) and isinstance(v.func, ast.Name) and v.func.id == "len" and len(v.args) == 1 and not v.keywords and norm(v.args[0]) == hay:
+            return frozenset({"len"}), env
+        if isinstance(v, ast.Call) and isinstance(v.func, ast.Name) and v.func.id == "max" and len(v.args) == 2 and not v.keywords and any(isinstance(a, ast.Constant) and a.value == 0 and not isinstance(a.value, bool) for a in v.args):
+            inner = next(a for a in v.args if not (isinstance(a, ast.Constant) and a.value == 0))
+            k, env = value(inner, env)
+            return frozenset("zero" if x == "neg" else x for x in k), env
+        try:
+            k = ast.literal_eval(v)
+            if not isinstance(k, bool) and isinstance(k, int) and k in (-1, 0):
+                return frozenset({"neg" if k == -1 else "zero"}), env
+        except Exception:  # noqa: BLE001
+            pass
+        return OTHER, bind_walrus(v, env)
+
+    def refine(test: ast.expr, env, want: bool):
+        """Environment on the branch where `test` evaluates to `want` (None = unreachable)."""
+        if env is None:
             return None
         if isinstance(test, ast.Constant):
-            return st if bool(test.value) is want else None
+            return env if bool(test.value) is want else None
         if isinstance(test, ast.UnaryOp) and isinstance(test.op, ast.Not):
-            return refine(test.operand, st, not want)
+            return refine(test.operand, env, not want)
         if isinstance(test, ast.BoolOp):
             conj = isinstance(test.op, ast.And)
             if conj == want:  # every operand has the value `want`
                 for v in test.values:
-                    st = refine(v, st, want)
-                return st
+                    env = refine(v, env, want)
+                return env
             out = None  # operand i is the first with the other value
-            cur = st
+            cur = env
             for v in test.values:
-                out = join(out, refine(v, cur, want))
+                out = join_env(out, refine(v, cur, want))
                 cur = refine(v, cur, not want)
             return out
+        if isinstance(test, ast.NamedExpr) and isinstance(test.target, ast.Name):
+            _k, env = value(test, env)
+            return refine(test.target, env, want)
+        if isinstance(test, ast.Name) and test.id in env and test.id not in poisoned:  # truthiness of an index
+            kept = frozenset(k for k in env[test.id] if not ((k == "zero" and want) or (k == "neg" and not want)))
+            return {**env, test.id: kept} if kept else None
         if isinstance(test, ast.Compare) and len(test.ops) == 1:
             l, op, r = test.left, type(test.ops[0]), test.comparators[0]
             for x, y, flip in ((l, r, False), (r, l, True)):
-                if isinstance(x, ast.NamedExpr) and isinstance(x.target, ast.Name) and x.target.id == var:
-                    if stores(x.value) or stores(y):
-                        raise _GiveUp
-                    st = absval(x.value)
+                try:
+                    k = ast.literal_eval(y)
+                except Exception:  # noqa: BLE001
+                    continue
+                if isinstance(k, bool) or not isinstance(k, int):
+                    continue
+                if isinstance(x, ast.NamedExpr) and isinstance(x.target, ast.Name):
+                    _k, env = value(x, env)
                     x = x.target
-                if isinstance(x, ast.Name) and x.id == var:
-                    try:
-                        k = ast.literal_eval(y)
-                    except Exception:  # noqa: BLE001
-                        break
-                    if isinstance(k, bool) or not isinstance(k, int):
-                        break
-                    if flip:
-                        op = {ast.Lt: ast.Gt, ast.Gt: ast.Lt, ast.LtE: ast.GtE, ast.GtE: ast.LtE}.get(op, op)
-                    if not st:
-                        return st
-                    kept = frozenset(v for v in st if can(v, op, k, want))
-                    return kept or None
-        if stores(test):
-            raise _GiveUp
-        return st
+                if isinstance(x, ast.Name) and x.id in env and x.id not in poisoned:
+                    o = {ast.Lt: ast.Gt, ast.Gt: ast.Lt, ast.LtE: ast.GtE, ast.GtE: ast.LtE}.get(op, op) if flip else op
+                    kept = frozenset(v for v in env[x.id] if can(v, o, k, want))
+                    return {**env, x.id: kept} if kept else None
+                break
+        return bind_walrus(test, env)
 
-    def block(stmts: list, st):
-        """(fall-through, break, continue) states of a statement list."""
+    def assign(t: ast.expr, kinds: frozenset | None, env: dict) -> dict:
+        if isinstance(t, ast.Name):
+            return {**env, t.id: kinds if kinds is not None else OTHER}
+        for x in ast.walk(t):
+            if isinstance(x, ast.Name) and isinstance(x.ctx, ast.Store):
+                env = {**env, x.id: OTHER}
+        return env
+
+    def block(stmts: list, env):
+        """(fall-through, break, continue) environments of a statement list."""
         brk = cont = None
         for s in stmts:
-            if st is None:
+            if env is None:
                 break
-            st, b, c = stmt(s, st)
-            brk, cont = join(brk, b), join(cont, c)
-        return st, brk, cont
+            env, b, c = stmt(s, env)
+            brk, cont = join_env(brk, b), join_env(cont, c)
+        return env, brk, cont
 
-    def loop(s, st, test: ast.expr | None):
-        head = st
+    def loop(s, env, test: ast.expr | None):
+        head = env
         brk_all = back = None
-        for _ in range(8):
-            inside = refine(test, head, True) if test is not None else head
+        for _ in range(12):
+            inside = refine(test, head, True) if test is not None else assign(s.target, None, head)
             out, b, c = block(s.body, inside)
-            brk_all = join(brk_all, b)
-            back = join(out, c)  # the states at the end of a round
-            new_head = join(head, back)
+            brk_all = join_env(brk_all, b)
+            back = join_env(out, c)  # the environments at the end of a round
+            new_head = join_env(head, back)
             if new_head == head:
                 break
             head = new_head
         else:
             raise _GiveUp
         if s is target:  # (the iterable of a for loop is evaluated once, the test of a while loop before every round)
-            seen_at[0] = join(seen_at[0], head if test is not None else st)
+            seen_at[0] = join_env(seen_at[0], head if test is not None else env)
         if test is not None:
             done = refine(test, head, False)
         else:  # a for loop ends after its last round - or at once, unless its range is known not to be empty
             done = back if _range_nonempty(f, s) else head
         e_out, e_b, e_c = block(s.orelse, done)
-        return join(e_out, brk_all), e_b, e_c
+        return join_env(e_out, brk_all), e_b, e_c
 
-    def stmt(s: ast.stmt, st):
+    def stmt(s: ast.stmt, env):
         if s is target and not isinstance(s, (ast.While, ast.For, ast.AsyncFor)):
-            seen_at[0] = join(seen_at[0], st)
+            seen_at[0] = join_env(seen_at[0], env)
         if isinstance(s, (ast.FunctionDef, ast.AsyncFunctionDef, ast.ClassDef)):
-            if any(isinstance(x, (ast.Nonlocal, ast.Global)) and var in x.names for x in ast.walk(s)):
-                raise _GiveUp
-            return st, None, None
+            return assign(ast.Name(id=s.name, ctx=ast.Store()), None, env), None, None
         if isinstance(s, (ast.Assign, ast.AnnAssign)):
+            if s.value is None:
+                return env, None, None
             tgts = s.targets if isinstance(s, ast.Assign) else [s.target]
-            if s.value is not None and stores(s.value):
-                raise _GiveUp
-            if any(isinstance(t, ast.Name) and t.id == var for t in tgts):
-                if s.value is None:
-                    return st, None, None
-                return absval(s.value), None, None
-            if any(stores(t) for t in tgts):
-                raise _GiveUp
-            return st, None, None
+            if len(tgts) == 1 and isinstance(tgts[0], (ast.Tuple, ast.List)) and isinstance(s.value, (ast.Tuple, ast.List)) and len(tgts[0].elts) == len(s.value.elts) and not any(isinstance(x, ast.Starred) for x in [*tgts[0].elts, *s.value.elts]):
+                ks = []
+                for v in s.value.elts:  # (all right-hand sides are evaluated first)
+                    k, env = value(v, env)
+                    ks.append(k)
+                for t, k in zip(tgts[0].elts, ks):
+                    env = assign(t, k, env)
+                return env, None, None
+            k, env = value(s.value, env)
+            for t in tgts:
+                env = assign(t, k, env)
+            return env, None, None
+        if isinstance(s, ast.AugAssign):
+            env = bind_walrus(s.value, env)
+            return assign(s.target, None, env), None, None
         if isinstance(s, ast.If):
-            a, ab, ac = block(s.body, refine(s.test, st, True))
-            b, bb, bc = block(s.orelse, refine(s.test, st, False))
-            return join(a, b), join(ab, bb), join(ac, bc)
+            a, ab, ac = block(s.body, refine(s.test, env, True))
+            b, bb, bc = block(s.orelse, refine(s.test, env, False))
+            return join_env(a, b), join_env(ab, bb), join_env(ac, bc)
         if isinstance(s, ast.While):
-            return loop(s, st, s.test)
+            return loop(s, env, s.test)
         if isinstance(s, (ast.For, ast.AsyncFor)):
-            if stores(s.target) or stores(s.iter):
-                raise _GiveUp
-            return loop(s, st, None)
+            return loop(s, bind_walrus(s.iter, env), None)
         if isinstance(s, ast.Break):
-            return None, st, None
+            return None, env, None
         if isinstance(s, ast.Continue):
-            return None, None, st
+            return None, None, env
         if isinstance(s, (ast.Return, ast.Raise)):
-            if stores(s):
-                raise _GiveUp
             return None, None, None
         if isinstance(s, (ast.With, ast.AsyncWith)):
-            if any(stores(i) for i in s.items):
-                raise _GiveUp
-            return block(s.body, st)
+            for i in s.items:
+                env = bind_walrus(i.context_expr, env)
+                if i.optional_vars is not None:
+                    env = assign(i.optional_vars, None, env)
+            return block(s.body, env)
         if isinstance(s, ast.Try) or s.__class__.__name__ == "TryStar":
-            out, b, c = block(s.body, st)
-            # an exception can leave the body after any of its assignments
-            mid = st
+            out, b, c = block(s.body, env)
+            # an exception can leave the body after any of its assignments: weak update with everything the body may store
+            mid = env
             for x in ast.walk(ast.Module(body=s.body, type_ignores=[])):
-                if isinstance(x, (ast.Assign, ast.AnnAssign)) and any(isinstance(t, ast.Name) and t.id == var for t in (x.targets if isinstance(x, ast.Assign) else [x.target])) and x.value is not None:
-                    mid = join(mid, absval(x.value))
-                elif isinstance(x, ast.NamedExpr) and isinstance(x.target, ast.Name) and x.target.id == var:
-                    mid = join(mid, absval(x.value))
+                if isinstance(x, ast.Name) and isinstance(x.ctx, (ast.Store, ast.Del)):
+                    st_ = parent(x)
+                    k = OTHER
+                    if isinstance(st_, (ast.Assign, ast.AnnAssign, ast.NamedExpr)) and getattr(st_, "value", None) is not None and (x is getattr(st_, "target", None) or x in getattr(st_, "targets", [])):
+                        k = _try_value(st_.value)
+                    mid = {**mid, x.id: get(mid, x.id) | k}
             e_out, e_b, e_c = block(s.orelse, out)
-            res, rb, rc = e_out, join(b, e_b), join(c, e_c)
+            res, rb, rc = e_out, join_env(b, e_b), join_env(c, e_c)
             for h in s.handlers:
-                if h.name == var:
-                    raise _GiveUp
-                h_out, h_b, h_c = block(h.body, mid)
-                res, rb, rc = join(res, h_out), join(rb, h_b), join(rc, h_c)
+                h_env = assign(ast.Name(id=h.name, ctx=ast.Store()), None, mid) if h.name else mid
+                h_out, h_b, h_c = block(h.body, h_env)
+                res, rb, rc = join_env(res, h_out), join_env(rb, h_b), join_env(rc, h_c)
             if s.finalbody:
-                f_out, f_b, f_c = block(s.finalbody, join(res, mid))
-                # (the state after `finally` on the normal path is the normal one unless the block assigns the variable)
-                if any(stores(x) for x in s.finalbody):
-                    res = f_out
-                elif f_out is None:
+                f_out, f_b, f_c = block(s.finalbody, join_env(res, mid))
+                if f_out is None:
                     res = None
-                rb, rc = join(rb, f_b), join(rc, f_c)
+                elif res is not None:  # (on the normal path only what the finally block itself assigns changes)
+                    stored = {x.id for st_ in s.finalbody for x in ast.walk(st_) if isinstance(x, ast.Name) and isinstance(x.ctx, (ast.Store, ast.Del))}
+                    res = {k: (f_out.get(k, OTHER) if k in stored else v) for k, v in res.items()}
+                rb, rc = join_env(rb, f_b), join_env(rc, f_c)
             return res, rb, rc
-        if isinstance(s, (ast.Expr, ast.AugAssign, ast.Assert, ast.Delete, ast.Pass, ast.Import, ast.ImportFrom, ast.Global, ast.Nonlocal)):
-            if stores(s) or (isinstance(s, (ast.Global, ast.Nonlocal)) and var in s.names):
-                raise _GiveUp
-            return st, None, None
+        if isinstance(s, ast.Delete):
+            for t in s.targets:
+                env = assign(t, None, env)
+            return env, None, None
+        if isinstance(s, (ast.Expr, ast.Assert)):
+            return bind_walrus(s, env), None, None
+        if isinstance(s, (ast.Pass, ast.Import, ast.ImportFrom, ast.Global, ast.Nonlocal)):
+            for a in getattr(s, "names", []):
+                if isinstance(a, ast.alias):
+                    env = assign(ast.Name(id=(a.asname or a.name).split(".")[0], ctx=ast.Store()), None, env)
+            return env, None, None
         raise _GiveUp  # match statements etc.
 
-    if var in f.param_names:
-        return None
+    def _try_value(v: ast.expr) -> frozenset:
+        """Kinds of a value assigned inside a try body, for the weak update at the handlers (locals read there: anything)."""
+        k, _e = value(v, {})
+        return k
+
     try:
-        block(fn.body, frozenset())  # (before its first assignment the variable holds nothing)
-    except _GiveUp:
+        block(fn.body, {})
+    except (_GiveUp, RecursionError):
         return None
-    except RecursionError:
+    env_at = seen_at[0]
+    if env_at is None:
         return None
-    return seen_at[0]
+    kinds = get(env_at, var)
+    return None if "other" in kinds or not kinds else kinds
 
 
 def _boundary_index_var(repo: Repo, f: FuncInfo, var: str, hay: str, at: ast.AST, nonneg: bool = False) -> str | None:
@@ -2393,7 +2461,16 @@ def _boundary_index_var(repo: Repo, f: FuncInfo, var: str, hay: str, at: ast.AST
 
     finds = [v for v in vals if isinstance(v, ast.Call) and isinstance(v.func, ast.Attribute) and v.func.attr in ("find", "rfind") and norm(v.func.value) == hay and v.args and _const_str(v.args[0]) == "."]
     if not (binds and len(vals) == len(binds) and finds and all(v in finds or sentinel(v) or whole(v) for v in vals)):
-        return None
+        # other spellings (index / rindex in a try, conditional expressions, copies of another index variable, `max(i, 0)`):
+        # decided by the reaching values alone
+        if not binds or any(kind != "value" for kind, _src, _p in binds):
+            return None
+        kinds = _index_values_at(f, var, hay, at)
+        if not kinds or not (kinds & {"sep", "neg", "len"}):
+            return None
+        if "neg" not in kinds or (nonneg and "zero" not in kinds):
+            return "safe"
+        return "safe" if _found_guard(repo, f, at, hay, {var}) else "unsafe"
     if nonneg or _found_guard(repo, f, at, hay, {var}):
         return "safe"
     # reaching values: on every path to the cut the not-found result was replaced (`if i < 0: i = len(name)`) or excluded
@@ -2506,6 +2583,14 @@ def _index_cut(repo: Repo, f: FuncInfo, node: ast.Subscript, bound: ast.expr, is
             if pat in ("\\.", "[.]"):
                 if core.func.attr == "start" or not is_upper:
                     return "safe", "cut at a position where the regular expression '\\.' matched the separator"
+    # a local with one definition that is none of the above (`end = i if i != -1 else len(name)`, `end = max(i, 0)`): reaching values
+    c0, o0 = _strip_offset(bound)
+    if isinstance(c0, ast.Name) and o0 in (0, 1) and not isinstance(f.node, ast.Lambda) and local_defs(repo, f).get(c0.id) is not None:
+        v_ = _boundary_index_var(repo, f, c0.id, hay, node, nonneg=(o0 == 1))
+        if v_ == "safe":
+            return "safe", "cut at a separator found by find/rfind/index (or at the end of the name): the not-found result -1 cannot reach this slice"
+        if v_ == "unsafe":
+            return "unsafe", f"`{norm(node, 60)}`: find('.') is -1 for a name without (further) separator, the slice then cuts off the last character"
     return "unknown", f"`{norm(node, 60)}`: cannot establish that the index `{norm(bound, 30)}` is the position of a separator"
 
 
@@ -4259,7 +4344,10 @@ def _scan(repo: Repo) -> list[Site]:
                     if s is not True or "PARTS" in tagged(n.value):
                         continue
                     for b, is_upper in bounds:
-                        if b is None or _len_calls(repo, f, b):
+                        if b is None:
+                            continue
+                        b_def = local_defs(repo, f).get(b.id) if isinstance(b, ast.Name) and not isinstance(f.node, ast.Lambda) else None
+                        if _len_calls(repo, f, b) and not isinstance(b_def, ast.IfExp):
                             continue  # (a bound relative to the own length: a cut counted from the end, see the other bound)
                         try:
                             ast.literal_eval(b)
